@@ -497,7 +497,22 @@ class Interp:
         if isinstance(e, ast.Starred):
             raise AnalysisError("absint: starred expression outside call/list")
         if isinstance(e, ast.JoinedStr):
-            return "<fstring>"
+            # mostly error messages; evaluated when every piece can be (models print as their repr), otherwise opaque
+            parts = []
+            try:
+                for v in e.values:
+                    if isinstance(v, ast.Constant):
+                        parts.append(str(v.value))
+                    elif isinstance(v, ast.FormattedValue) and v.format_spec is None and v.conversion == -1:
+                        x = self.ev(v.value, env)
+                        if not isinstance(x, (str, int, bool)):
+                            return "<fstring>"
+                        parts.append(str(x))
+                    else:
+                        return "<fstring>"
+            except (AnalysisError, Reject):
+                return "<fstring>"
+            return "".join(parts)
         raise AnalysisError(f"absint: unsupported expression {type(e).__name__}: {src(e)[:60]}")
 
     def elts(self, elts, env):
